@@ -45,13 +45,13 @@ def check_session(s: MemSession, model: Model, res: Result, label: str) -> None:
             cls = "no-ttl" if d["ttl"] is None else ("ttl-far" if d["at"] < d["ts"] + d["ttl"] - S else "ttl-near")
             res.dist["deliver:" + cls] += 1
             res.note(("deliver", cls, d["at"] - d["ts"] - (d["ttl"] or 0) if d["ttl"] else 0))
-            if ans != "true" and (first_bad is None or d["log"] <= first_bad):
+            if ans != "true":
                 res.bad("impl", "Pred.C12.notExpiredAt: an expired message was handed to a normal consumer",
                         case={"label": label, "ops": ops[: d["log"] + 1], "delivery": d}, observed=ans, expected="true")
         else:
             res.dist["dead:expired"] += 1
             res.note(("dead", d["op"], d["at"] - d["ts"] - (d["ttl"] or 0)))
-            if ans != "false" and first_bad is None:
+            if ans != "false":
                 res.bad("impl", "a message still within its time-to-live was dead-lettered",
                         case={"label": label, "ops": ops, "event": d}, observed="dead-lettered, notExpiredAt=" + ans,
                         expected="stays deliverable")
